@@ -122,13 +122,15 @@ func prepareHist(m **ref.Node, indexed bool, hist []ops.Op) (*tree.Tree, *ref.UV
 		}
 		if ok && lens {
 			*m = model
-			if indexed {
+			// after an even number of edits the indexes stay as the edits left them (names exchanged or a
+			// tip grafted without a refresh of the tip index): the operations find tips in the tree
+			if indexed && len(hist)%2 == 1 {
 				if err := t.ReinitIndexes(); err != nil {
 					return nil, nil, err
 				}
 			}
 			u, err := ref.Unrooted(model)
-			lastTree, lastIndexed = t, indexed
+			lastTree, lastIndexed = t, indexed && len(hist)%2 == 1
 			return t, u, err
 		}
 	}
@@ -140,7 +142,7 @@ func drawHistory(t *rapid.T) []ops.Op {
 	if rapid.IntRange(0, 4).Draw(t, "hashistory") != 2 {
 		return nil
 	}
-	return ops.GenHistory(t, 4)
+	return ops.GenHistoryOf(t, ops.WithTipEdits, 4)
 }
 
 // lastTree is the tree of the case being checked (cases are evaluated one at a time).
@@ -532,6 +534,13 @@ func genOut(t *rapid.T, thorough bool) OutCase {
 		}
 		if left < 3 {
 			c.Remove = false
+		}
+	}
+	for _, op := range c.History {
+		// a tip renamed by the history ("sn1x" is the first fresh name) may be part of the outgroup
+		if op.Kind == "setname_fresh" && rapid.Bool().Draw(t, "freshinout") {
+			c.Out = append(c.Out, "sn1x")
+			break
 		}
 	}
 	return c
